@@ -49,7 +49,7 @@ fn main() {
     n += check("u32", &[0u32, 1, 0xff00ff, 0xff000000, u32::MAX], |v| v.to_ne_bytes().to_vec());
     n += check("i32", &[0i32, 1, -1, i32::MIN, i32::MAX], |v| v.to_ne_bytes().to_vec());
     n += check("u64", &[0u64, 1, 1 << 63, u64::MAX, 0x0102030405060708], |v| v.to_ne_bytes().to_vec());
-    let ss: Vec<String> = ["", "a", "é", "\u{10348}", "aé\u{10348}"].iter().map(|s| s.to_string()).collect();
+    let ss: Vec<String> = ["", "a", "é", "\u{10348}", "aé\u{10348}", "\u{feff}", "\u{feff}abc", " a ", "a\n", "e\u{301}"].iter().map(|s| s.to_string()).collect();
     n += check("String", &ss, |v| v.as_bytes().to_vec());
     n += check("Vec<u8>", &all_vectors(&[0u8, 1, 0xff], 3), |v| v.clone());
     n += check("Vec<u16>", &all_vectors(&[0u16, 1, 0xff00], 3), |v| v.iter().flat_map(|x| x.to_ne_bytes()).collect());
